@@ -23,4 +23,8 @@ CLAIMED = {
   technique="TLA+ monitor x receiver-automaton product (GstuffMC.tla) model-checked by TLC for all stream lengths; recorded (byte,status) traces of the real receivers validated by the monitor in TLC",
   text="The history-free product of the transcribed receiver automata (default, coinciding-marker, legacy) with the property monitor (soundness of every delivery, owed deliveries after garbage, overflow reporting, capacity bound) is explored exhaustively for capacities 2-3 (2-5 thorough): byte streams of every length. The real receivers are driven with all short words over the symbol alphabet, valid traffic with garbage prefixes and single truncation/corruption/insertion faults, and noise; each (byte,status,size,content,guards) event is judged by the monitor and compared status-by-status with the automaton model.",
   note=NOTE),
+ "C15": dict(
+  technique="TLA+ reference editor + VT100 screen model (LineEdit.tla) model-checked by TLC; state-graph edge cover replayed on vterm_automate and vtermxx; every key event validated by TLC (exec lines, signal, accessors, screen reached by the echoed bytes, guards)",
+  text="The reference editor (insert/BS/arrows/delete/history/CR-LF pairing/Ctrl-C/unknown escapes) is finite for a given capacity and history depth, so TLC covers key sequences of every length for cap 2-3 x depth 1-2 (cap 2-4 x depth 1-3 thorough) and checks the bounds invariants; every edge is replayed on the C automaton and its C++ twin; TLC interprets the bytes the implementation echoed with a VT100 model and requires the screen to show the reference line and cursor, the execute callback to receive the reference line (NUL terminated), and the guard bytes around line and history buffers to be intact. The sline API (bulk insert, multi-delete, getline) is judged against its reference too.",
+  note=NOTE),
 }
